@@ -373,6 +373,28 @@ def inDomain (z : Nat) (fs : List (Pt UInt64)) : Bool :=
     let x := Float.ofBits f.x; let y := Float.ofBits f.y
     x ≥ 0 && x < n && y ≥ 0 && y < n
 
+/-- A property failure on a case where model and implementation ALSO disagree gets its own clause label
+    (`propfail <clause>+diff …`): the failure still outranks the bare `diff` (it is a concrete violation),
+    but a known-finding pattern written for `<clause>` can never absorb a model/implementation
+    disagreement — the plain label is emitted only when the two agree on the case. -/
+def withDiff (s : String) : String :=
+  match s.splitOn " " with
+  | p :: c :: rest => " ".intercalate (p :: (c ++ "+diff") :: rest)
+  | _ => s ++ " +diff"
+
+def finish (agree : Bool) (model : String) (s : String) : String :=
+  if s.startsWith "propfail" then (if agree then s else withDiff s)
+  else if agree then s else "diff " ++ model
+
+/-- all fractions in `[0, n] × [0, n)` and some column equal to `n` (lon = 180): outside the property's
+    domain, the case of `maptile.At`'s last-column clamp -/
+def lastCol (z : Nat) (fs : List (Pt UInt64)) : Bool :=
+  let n := Float.ofNat (2 ^ z)
+  (fs.all fun f =>
+    let x := Float.ofBits f.x; let y := Float.ofBits f.y
+    x ≥ 0 && x ≤ n && y ≥ 0 && y < n) &&
+  (fs.any fun f => Float.ofBits f.x == n)
+
 def runModel (z : Nat) (tab : FracTab) (fuel : Nat) (g : Geom UInt64) : CRes (List Tile) :=
   cover opsF (fracF tab) z fuel (mapGeom Float.ofBits g)
 
@@ -398,15 +420,16 @@ def handleCover (inp out : Toks) : String :=
            let model := showRes (runModel z tab (fuelOf fs) g)
            if model == "fuel" then "skip fuel" else
            let got := " ".intercalate res
-           let fin (s : String) : String := if s.startsWith "propfail" || model == got then s else "diff " ++ model
+           let fin (s : String) : String := finish (model == got) model s
            fin <|
            if res == ["panic"] then "propfail panic" else
-           if !(inDomain z fs) then "ok outside-domain" else
+           if !(inDomain z fs) then
+             (if lastCol z fs then "ok outside-domain lastcol-" ++ kindTag g else "ok outside-domain") else
            match res with
            | ["err", "uneven"] =>
              -- inside the quantifier (closed rings) an error is a violation; unclosed rings may be rejected
              (match geomQ tab g with
-              | some gq => if (polysOf gq).all (·.all isClosedRing) then "propfail uneven-on-closed-polygon" else "ok uneven-unclosed"
+              | some gq => if (polysOf gq).all (·.all isClosedRing) then "propfail uneven-on-closed-polygon" else "ok uneven-unclosed-" ++ kindTag g
               | none => "skip non-finite")
            | _ =>
              match parseOk res, geomQ tab g with
@@ -440,7 +463,7 @@ def handleColl (inp out : Toks) : String :=
          let model := " ; ".intercalate ((gs.map fun m => showRes (runModel z tab fuel m)) ++ [showRes (runModel z tab fuel g)])
          let got := " ; ".intercalate (rest.map (" ".intercalate ·))
          if (model.splitOn "fuel").length > 1 then "skip fuel" else
-         let fin (s : String) : String := if s.startsWith "propfail" || model == got then s else "diff " ++ model
+         let fin (s : String) : String := finish (model == got) model s
          fin <|
          if rest.any (· == ["panic"]) then "propfail panic" else
          let members := rest.take gs.length
@@ -550,9 +573,10 @@ def handleMerge (partial_ : Bool) (inp out : Toks) : String :=
          let modelStable := m1 == m2 && m2 == m3
          let got := canonTiles r
          let fin (s : String) : String :=
-           if s.startsWith "propfail" then s
-           else if !modelStable then (if inQ then "propfail model-order-dependent" else "skip order-dependent-input")
-           else if m1 == got then s else "diff " ++ showTiles m1
+           if !modelStable then
+             (if s.startsWith "propfail" then s
+              else if inQ then "propfail model-order-dependent" else "skip order-dependent-input")
+           else finish (m1 == got) (showTiles m1) s
          fin <|
          if same != "same" then (if inQ then "propfail result-depends-on-map-order" else "skip order-dependent-input") else
          if !inQ then "ok outside-quantifier" else
